@@ -1,16 +1,36 @@
 """C16 — ground speed is the length of airspeed vector plus wind vector.
 
+All rules read Weather.get_ground_speed through its *value flow* (c12.ValueCase):
+locals are followed through their unique reaching definition, tuple unpacking
+component-wise, helpers of the module through their single `return` with the
+arguments substituted, loops over a literal tuple through their unrolling — so
+the verdicts do not depend on whether a step is written inline, in a local, in
+a loop or in a helper method.
+
 R1  component roles (T-ROLE): heading is degrees clockwise from north, wind
     `u` is eastward and `v` northward, so the air-speed term added to the value
     read from dataset variable 'u' must derive from sin(heading) and the one
     added to 'v' from cos(heading).
-R2  the result is hypot of exactly those two *sums*.
-R3  the return is dominated by the NaN test (on both wind components) that
-    raises: points outside the data domain are refused.
-R4  altitude -> Pa -> hPa uses the ISA function divided by 100 for both
-    components; interpolation coordinates receive matching roles.
-R5  the trigonometric argument is the heading converted to radians; the
-    explicit azimuth overrides the ground-track azimuth only when given.
+R2  the result is the norm (hypot / sqrt of squares / linalg.norm) of exactly
+    those two *sums*; the air-speed term is exactly TAS x sin|cos.
+R3  both wind values are known NaN-free at the return on every path (must-
+    dataflow over the CFG): a branch on a NaN test (`isnull`/`isnan`/`x != x`,
+    or `notnull`/`isfinite` with the opposite sense; `and`/`or`/`not`, named
+    conditions, `any(... for w in (a, b))`, one test per component, a loop over
+    the components) proves it on the edge where the test says "no NaN"; values
+    are identified by the binding they come from, through copies and scalar
+    conversions; a helper that returns the winds proves it if its own analysis
+    does at its `return`, a helper that cannot return normally unless its
+    arguments are NaN-free proves it for them.
+R4  altitude -> Pa -> hPa: the `pressure_level` of each wind interpolation is
+    exactly ISA pressure(altitude) / 100 (algebraic comparison; module
+    constants folded) for both components; interpolation coordinates receive
+    matching roles; one interpolation each for 'u' and 'v'.
+R5  the trigonometric argument is the heading converted to radians (deg2rad /
+    radians / x·pi/180); the selection of the heading is *run* for an absent
+    azimuth, an explicit azimuth of 0 (falsy) and an ordinary explicit azimuth
+    (if/else, conditional expression, `or`, rebinding of the parameter, match):
+    the ground-track azimuth must be used exactly when no azimuth is given.
 R6  the hourly slice cache is keyed on what it was sliced by.
 """
 
@@ -23,7 +43,7 @@ from ..astutil import call_name, kwarg, norm, walk_no_nested
 from ..conform import ref_normal_form
 from ..resolve import resolve_call
 from ..roles import expr_role
-from .c12 import Undecidable, ValueCase, _cp, unroll_literal_loops
+from .c12 import Undecidable, ValueCase, _cp, unroll_literal_loops, visible_constants
 
 W = 'weather.py'
 EXPECT = {'u': 'sin', 'v': 'cos'}
@@ -429,10 +449,11 @@ def _run_ground_speed(ctx, m, gs, fn, callee_of):
                     and c.func.attr == 'interp']
     ctx.floor('C16-R4', len(interps), 2, 'wind interpolation calls')
     want_pl = ref_normal_form('pressure_at_altitude_isa_bada4(altitude) / 100', {})
+    vis = visible_constants(ctx.prog, m)
     for c in interps:
         pl = kwarg(c, 'pressure_level')
         try:
-            ok = pl is not None and 'altitude' in F.params and poly_equal(normal_form(pl), want_pl)
+            ok = pl is not None and 'altitude' in F.params and poly_equal(normal_form(pl, {}, vis), want_pl)
         except AlgebraError:
             ok = False
         ctx.ob('C16-R4', gs, f'pressure_level={norm(pl) if pl is not None else "?"}', ok,
